@@ -15,13 +15,16 @@ import (
 )
 
 type Solver struct {
-	name    string
-	cmd     *exec.Cmd
-	in      *bufio.Writer
-	inRaw   io.WriteCloser
-	out     *bufio.Reader
-	defined map[int32]bool
-	nDef    int
+	name     string
+	cmd      *exec.Cmd
+	in       *bufio.Writer
+	inRaw    io.WriteCloser
+	out      *bufio.Reader
+	lines    chan string
+	limit    time.Duration // wall-clock limit per answer; exceeding it kills and restarts the solver
+	Timeouts int
+	defined  map[int32]bool
+	nDef     int
 
 	Queries, Sat, Unsat, Unknown int
 	Errors                       int
@@ -71,6 +74,22 @@ func (s *Solver) start(args []string) error {
 	}
 	s.in = bufio.NewWriterSize(sink, 1<<16)
 	s.out = bufio.NewReaderSize(r, 1<<16)
+	s.lines = make(chan string, 64)
+	go func(rd *bufio.Reader, ch chan string) {
+		for {
+			line, err := rd.ReadString('\n')
+			if line != "" {
+				ch <- line
+			}
+			if err != nil {
+				close(ch)
+				return
+			}
+		}
+	}(s.out, s.lines)
+	if s.limit == 0 {
+		s.limit = 150 * time.Second
+	}
 	s.defined = map[int32]bool{}
 	s.nDef = 0
 	if s.name == "cvc5" {
@@ -100,6 +119,9 @@ func (s *Solver) Restart() error {
 	s.Close()
 	return s.start(solverCmds[s.name])
 }
+
+// SetLimit sets the wall-clock limit per answer.
+func (s *Solver) SetLimit(d time.Duration) { s.limit = d }
 
 // define makes sure t (and its sub-terms) are known to the solver.
 func (s *Solver) define(t *Term) {
@@ -136,6 +158,14 @@ func (s *Solver) Check(cs []*Term, vars []*Term) (Result, Model) {
 	t0 := time.Now()
 	defer func() { s.Time += time.Since(t0) }()
 	s.Queries++
+	if s.cmd == nil {
+		if err := s.start(solverCmds[s.name]); err != nil {
+			s.Errors++
+			s.lastErr = err.Error()
+			s.Unknown++
+			return RUnknown, nil
+		}
+	}
 	for _, c := range cs {
 		s.define(c)
 	}
@@ -152,6 +182,13 @@ func (s *Solver) Check(cs []*Term, vars []*Term) (Result, Model) {
 	sawErr := false
 	for {
 		line, err := s.readLine()
+		if err == errSolverTimeout {
+			s.Timeouts++
+			s.lastErr = err.Error()
+			s.kill()
+			s.Unknown++
+			return RUnknown, nil
+		}
 		if err != nil {
 			s.Errors++
 			s.lastErr = err.Error()
@@ -216,9 +253,23 @@ func (s *Solver) Check(cs []*Term, vars []*Term) (Result, Model) {
 	return res, m
 }
 
+var errSolverTimeout = fmt.Errorf("solver wall-clock limit exceeded")
+
+func (s *Solver) rawLine() (string, error) {
+	select {
+	case line, ok := <-s.lines:
+		if !ok {
+			return "", io.EOF
+		}
+		return line, nil
+	case <-time.After(s.limit):
+		return "", errSolverTimeout
+	}
+}
+
 func (s *Solver) readLine() (string, error) {
 	for {
-		line, err := s.out.ReadString('\n')
+		line, err := s.rawLine()
 		if err != nil {
 			return "", err
 		}
@@ -230,37 +281,50 @@ func (s *Solver) readLine() (string, error) {
 	}
 }
 
-// readSexp reads one balanced s-expression from the solver.
+// readSexp reads one balanced s-expression (possibly over several lines).
 func (s *Solver) readSexp() (string, error) {
 	var sb strings.Builder
 	depth := 0
 	started := false
 	inBar := false
 	for {
-		b, err := s.out.ReadByte()
+		line, err := s.rawLine()
 		if err != nil {
 			return "", err
 		}
-		sb.WriteByte(b)
-		if inBar {
-			if b == '|' {
-				inBar = false
+		sb.WriteString(line)
+		for i := 0; i < len(line); i++ {
+			b := line[i]
+			if inBar {
+				if b == '|' {
+					inBar = false
+				}
+				continue
 			}
-			continue
+			switch b {
+			case '|':
+				inBar = true
+			case '(':
+				depth++
+				started = true
+			case ')':
+				depth--
+			}
 		}
-		switch b {
-		case '|':
-			inBar = true
-		case '(':
-			depth++
-			started = true
-		case ')':
-			depth--
-		}
-		if started && depth == 0 {
+		if started && depth <= 0 {
 			return sb.String(), nil
 		}
 	}
+}
+
+// kill terminates a solver that does not answer; the next query restarts it.
+func (s *Solver) kill() {
+	if s.cmd != nil && s.cmd.Process != nil {
+		s.cmd.Process.Kill()
+		s.inRaw.Close()
+		s.cmd.Wait()
+	}
+	s.cmd = nil
 }
 
 // parseValues parses "((|a| #x00) (|b| true) ...)" in the order of vars.
